@@ -7,6 +7,8 @@ def handle (line : String) : String :=
   match line.trimAscii.toString.splitOn " " with
   | "cost" :: rest => costLine rest
   | ["bus09", ops] => bus09Line ops
+  | ["bus16", ops] => bus16Line ops
+  | ["bus17", ops] => bus17Line ops
   | "sweep09" :: rest => sweep09Line rest
   | "step" :: rest => stepLine rest
   | _ => "bad-case"
